@@ -57,7 +57,10 @@ def k_names(base: str, i: int, j: int, r: int) -> str:
 
 # ------------------------------------------------------------------- W: sequences
 SEQ_KINDS = ['file', 'dir', 'link-dir', 'empty']
-PRE = ['none', 'orphan-x', 'lone-info-x', 'orphan-x_1', 'lone-info-x_1', 'orphan-dir-x', 'pair-x', 'info-is-dir-x', 'orphan-link-x']
+PRE = ['none', 'orphan-x', 'lone-info-x', 'orphan-x_1', 'lone-info-x_1', 'orphan-dir-x', 'pair-x', 'info-is-dir-x', 'orphan-link-x',
+       'long-names', 'long-names-orphan-file', 'long-names-orphan-dir', 'long-names-lone-info']
+LONG = 'L' * 250  # + suffix + '.trashinfo' exceeds NAME_MAX: the info name gets truncated
+LONG_T1 = 'L' * 238 + '_1'  # payload name paired with the first truncated info name (250 - len('_1.trashinfo') = 238)
 
 
 def pre_nodes(p, td):
@@ -81,6 +84,14 @@ def pre_nodes(p, td):
         return K.trashed(td, 'x', 'd9/x', '2019-01-01T00:00:00', 'dir', 3000)
     if k == 'info-is-dir-x':
         return base + [W.d(td + '/info/x.trashinfo')]
+    if k == 'long-names':
+        return []
+    if k == 'long-names-orphan-file':
+        return base + [W.f(td + '/files/' + LONG_T1, 'ORPHAN-LONG', 0o644, 3000)]
+    if k == 'long-names-orphan-dir':
+        return base + [W.d(td + '/files/' + LONG_T1), W.f(td + '/files/' + LONG_T1 + '/keep', 'ORPHAN-IN', 0o644, 3000)]
+    if k == 'long-names-lone-info':
+        return base + [W.f(td + '/info/' + LONG_T1 + '.trashinfo', K.info_text('d9/' + LONG, '2019-01-01T00:00:00'), 0o600, 3000)]
     raise ValueError(k)
 
 
@@ -96,16 +107,17 @@ def _seq(n, k0, k1, k2, k3, pre, many):
             nodes.append(W.f(td + '/files/x', 'T0', 0o644, 3100))
             for i in range(1, 100):
                 nodes.append(W.f(td + '/files/x_%d' % i, 'T%d' % i, 0o644, 3100 + i))
+        nm = LONG if PRE[pre].startswith('long-names') else 'x'
         for j, kd in enumerate(kinds):
-            nodes += K.entry_nodes(SEQ_KINDS[kd], '/v/d%d/x' % j, 1000 + 20 * j)
+            nodes += K.entry_nodes(SEQ_KINDS[kd], '/v/d%d/%s' % (j, nm), 1000 + 20 * j)
         m = W.build_model(W.W(mounts=K.MOUNTS, cwd='/v', nodes=nodes))
         label = 'seq:%s:%s' % (PRE[pre], 'many' if many else 'few')
         e = scen.env()
         for j, kd in enumerate(kinds):
             before = m.snap('/')
-            payload = scen.sub(before, '/v/d%d/x' % j)
+            payload = scen.sub(before, '/v/d%d/%s' % (j, nm))
             # random suffixes collide on purpose: 107, 107, 107, 108, 108, 109 ...
-            _, r = scen.run_model(None, [C('put', ['x'], e, cwd='/v/d%d' % j, rand=[107, 107, 107, 108, 108, 109, 109, 110, 111, 112], now='2020-01-0%dT00:00:00' % (j + 1))], model=m)
+            _, r = scen.run_model(None, [C('put', [nm], e, cwd='/v/d%d' % j, rand=[107, 107, 107, 108, 108, 109, 109, 110, 111, 112], now='2020-01-0%dT00:00:00' % (j + 1))], model=m)
             after = m.snap('/')
             if r[0]['exc'] or r[0]['exit'] != 0:
                 return rt.fail('C04:put-failed:' + label, 'put #%d: %r' % (j, r[0]))
@@ -113,7 +125,7 @@ def _seq(n, k0, k1, k2, k3, pre, many):
             if changed:
                 return rt.fail('C04:existing-node-changed:' + label, 'put #%d changed %r' % (j, sorted(changed)))
             for p in removed:
-                if not scen.is_under(p, '/v/d%d/x' % j):
+                if not scen.is_under(p, '/v/d%d/%s' % (j, nm)):
                     return rt.fail('C04:existing-node-removed:' + label, 'put #%d removed %r' % (j, p))
             tops = sorted(p for p in added if p.startswith(td + '/files/') and '/' not in p[len(td + '/files/'):])
             infos = sorted(p for p in added if p.startswith(td + '/info/'))
@@ -130,10 +142,10 @@ def _seq(n, k0, k1, k2, k3, pre, many):
 def w_seq(n: int, k0: int, k1: int, k2: int, k3: int, pre: int, many: bool) -> str:
     """
     pre: PARTITION is None or pre == PARTITION
-    pre: 1 <= n <= 4 and 0 <= k0 < 4 and 0 <= k1 < 4 and 0 <= k2 < 4 and 0 <= k3 < 4 and 0 <= pre < 9
+    pre: 1 <= n <= 4 and 0 <= k0 < 4 and 0 <= k1 < 4 and 0 <= k2 < 4 and 0 <= k3 < 4 and 0 <= pre < 13
     post: _ == ''
     """
-    return _seq(rt.sel(n, 5), rt.sel(k0, 4), rt.sel(k1, 4), rt.sel(k2, 4), rt.sel(k3, 4), rt.sel(pre, 9), rt.selb(many))
+    return _seq(rt.sel(n, 5), rt.sel(k0, 4), rt.sel(k1, 4), rt.sel(k2, 4), rt.sel(k3, 4), rt.sel(pre, 13), rt.selb(many))
 
 
 # ---------------------------------------------------------------- W: concurrency
@@ -268,9 +280,9 @@ def obligations(tier):
         CH('K_names_unique_and_paired', MOD, 'k_names', timeout=300, engine='K', regime='traced',
            encodes=['create_trashinfo_basename', 'Suffix.suffix_for_index', 'path_of_backup_copy'],
            stubs=['IntGenerator -> symbolic value'], bounds="base name: any str without '/', len<=6; indices 0..129; random value 0..65535"),
-        CH('W_sequences_same_name', MOD, 'w_seq', timeout=1800, partitions=list(range(9)), engine='W', regime='selector',
+        CH('W_sequences_same_name', MOD, 'w_seq', timeout=1800, partitions=list(range(13)), engine='W', regime='selector',
            encodes=K.PUT_FUNCS, stubs=K.STUBS,
-           bounds='1..4 successive puts of entries named x (4 kinds each) x 9 pre-existing states x (<100 | >100 same-named entries with colliding random suffixes)'),
+           bounds='1..4 successive puts of entries named x or a 250-byte name (4 kinds each) x 13 pre-existing states x (<100 | >100 same-named entries with colliding random suffixes)'),
         CH('W_two_processes_2_preemptions', MOD, 'w_conc2', timeout=2400, partitions=parts_q if tier == 'quick' else parts_t,
            engine='W', regime='selector', encodes=K.PUT_FUNCS + ['vf.sched replay-stepping'], stubs=K.STUBS,
            bounds='2 concurrent trash-put x (P0 runs a1 syscalls, P1 runs b1, then both complete), a1,b1 in 0..69 x kind pairs x 4 trash-dir pre-states'),
